@@ -113,8 +113,9 @@ Proof. intros l []. Qed.
 (* ---------------------------------------------------------------- *)
 (* persistable, discharged *)
 
-(* the netfilter prefix is not wider than the home prefix (net2 lies inside net1).  Config.New checks only that
-   the netfilter ADDRESS lies in the home LAN. *)
+(* the netfilter prefix is not wider than the home prefix (net2 lies inside net1).  Config.New checks it since
+   /repo 7a8efa9 (before, only the netfilter ADDRESS had to lie in the home LAN: finding
+   restart-drops-net2-lease-outside-home), so it follows from the existence of the handler. *)
 Definition nf_inside (c : D.cfg) : Prop := D.c_homebits c <= D.c_nfbits c.
 
 Lemma pnet_div a bits : D.pnet a bits / D.psize bits = a / D.psize bits.
@@ -141,17 +142,18 @@ Proof.
 Qed.
 
 Lemma persistable_reachable c sD cap i s :
-  nf_inside c ->
   DI.Inv c sD -> table_J (D.tbl sD) ->
   L.new (abs_cfg c) cap i = Ok s ->
   LK.persistable (L.d_n1 s) (abs_table (D.tbl sD)) = true.
 Proof.
-  intros Hnf HI HJ Hnew.
+  intros HI HJ Hnew.
   destruct (LR.new_stable _ _ _ _ Hnew) as (Hok & _ & _ & C1 & _).
   (* the handler's net1 is the masked home LAN *)
   unfold L.configChanged in C1. repeat (apply orb_false_iff in C1; destruct C1 as [C1 ?]).
   apply negb_false_iff in C1. apply LR.prefix_eqb_eq in C1.
-  unfold LN.cfg_ok in Hok. apply andb_true_iff in Hok. destruct Hok as [Hv Hc]. simpl in Hv, Hc.
+  unfold LN.cfg_ok in Hok. apply andb_true_iff in Hok. destruct Hok as [Hv Hc].
+  apply andb_true_iff in Hc. destruct Hc as [Hc Hnfb]. apply negb_true_iff in Hnfb. simpl in Hv, Hc, Hnfb.
+  assert (Hnf : nf_inside c) by (unfold nf_inside; lia).
   unfold contains in Hc. simpl in Hc. apply andb_true_iff in Hc. destruct Hc as [Hhb Hc]. apply N.eqb_eq in Hc.
   unfold LK.persistable, abs_table. apply forallb_forall. intros al Hal.
   apply in_map_iff in Hal. destruct Hal as (l & <- & Hl).
@@ -200,7 +202,7 @@ Section Oracle.
   Lemma restart_all_histories :
     LR.yaml_roundtrip text print read ->
     forall c h cap0 i0 s cap ord,
-      hist_wf h -> nf_inside c ->
+      hist_wf h ->
       L.new (abs_cfg c) cap0 i0 = Ok s ->
       let t := abs_table (D.tbl (fst (D.run c (D.init c) h))) in
       Permutation ord t ->
@@ -208,9 +210,9 @@ Section Oracle.
                  /\ L.d_n1 s' = L.d_n1 s /\ L.d_n2 s' = L.d_n2 s
                  /\ Permutation (L.bindings (L.d_table s')) (L.acked_bindings t).
   Proof.
-    intros Hy c h cap0 i0 s cap ord Hw Hnf Hnew t Hp.
+    intros Hy c h cap0 i0 s cap ord Hw Hnew t Hp.
     destruct (reachable_facts c h Hw) as (HI & HJ & Hnd).
-    pose proof (persistable_reachable c _ cap0 i0 s Hnf HI HJ Hnew) as Hper.
+    pose proof (persistable_reachable c _ cap0 i0 s HI HJ Hnew) as Hper.
     destruct (LR.restart_partial text print read Hy (abs_cfg c) cap0 i0 s cap t ord Hnew Hper Hnd Hp)
       as (s' & E & E1 & E2 & _ & E4).
     exists s'. auto.
